@@ -114,6 +114,7 @@ CONF = {
             "after EVERY operation the projection of getNodeDeviceSummary() of the node is compared with the from-scratch operators of "
             "Device.tla; distinct by content hash, non-trivial = at least one checked event",
     "assumptions": [
+        "plugin-level driver: Reserve, Unreserve and PreBind get the ASSUMED pod (a copy with spec.nodeName set), as kube-scheduler hands it to them",
         "one node (plugin-level driver: two); device types gpu / rdma / fpga with the resources the koordlet reports for them (gpu-core, gpu-memory-ratio, gpu-memory; rdma; fpga); "
         "the memory size of a GPU minor is fixed within a history and a healthy GPU reports 100 percent (GPU totals change by health / removal, "
         "rdma / fpga totals also shrink to 50)",
